@@ -10,7 +10,7 @@
    code and every statement below is now unconditional: for ALL byte strings, no Crash. *)
 From Coq Require Import String.
 From GocqlV Require Import Lib.Base Gen.Consts C04.Model C04.Proofs1 C04.Proofs4
-  C05.Model C05.Proofs1 C05.Proofs2 C05.Proofs3 C05.Proofs4 C05.Proofs5 C05.Proofs6.
+  C05.Model C05.Proofs1 C05.Proofs2 C05.Proofs3 C05.Proofs4 C05.Proofs5 C05.Proofs6 C05.Conn.
 
 (* never_crashes p (C05/Model.v): forall b c, wf_bytes b -> out p b <> Crash c *)
 
@@ -121,6 +121,23 @@ Proof. exact parse_type_no_crash. Qed.
 Print Assumptions C05_typestring_safe.
 
 (* ---- non-vacuity ------------------------------------------------------------------------------------ *)
+(* ---- the driver's own goroutines (C05/Conn.v) ------------------------------------------------------------
+   The startup goroutine of setupConn (options -> startup -> authenticateHandshake), Conn.heartBeat and
+   controlConn.heartBeat have no recover.  Whatever sequence of frame kinds the peer answers with --
+   for every authenticator configuration (none, PasswordAuthenticator, any user authenticator described by
+   which of its callbacks return a challenger / an error) -- none of them panics; the handshake writes at
+   most one request per reply consumed (plus the initial OPTIONS). *)
+Theorem C05_handshake_safe : forall (a : authcfg) (replies : list fkind),
+  fst (handshake true a replies) <> HCrash
+  /\ (snd (handshake true a replies) <= 1 + length replies)%nat.
+Proof. intros a ks. split; [apply hs_run_no_crash | apply (hs_run_requests true a ks SOptions 1)]. Qed.
+Print Assumptions C05_handshake_safe.
+
+Theorem C05_heartbeat_safe : forall (replies : list fkind) (failures : nat),
+  hb_run true failures replies <> HbCrash /\ ctl_run true replies <> CtlCrash.
+Proof. intros ks f. split; [apply hb_run_no_crash | apply ctl_run_no_crash]. Qed.
+Print Assumptions C05_heartbeat_safe.
+
 (* the hypotheses are satisfiable and the conclusions have both remaining outcomes: a body that parses, and the
    formerly crashing inputs, which are now rejected with errors *)
 Example C05_nonvacuous :
